@@ -1,6 +1,6 @@
 (** Snapshot file round trip (through the framing layer of C20) and the effect of a leftover
     file of the same name. *)
-From RN Require Import RaftLog.SnapFile.
+From RN Require Import RaftLog.SnapFile Codec.BufReaderProofs.
 From Coq Require Import Lia.
 Local Open Scope nat_scope.
 
@@ -27,39 +27,39 @@ Lemma write_in_place_same_length old new :
   length old <= length new -> write_in_place old new = new.
 Proof. intros H. unfold write_in_place. rewrite skipn_all2 by lia. apply app_nil_r. Qed.
 
-Definition nonempty (b : list N) : Prop := b <> [].
+(** The framing theorem of C20 (Codec/BufReaderProofs.chunking_invariance) in the instance used
+    here: the 1024-byte blocks of a well-formed stream without padding. *)
+Lemma framing_1024 : forall bodies : list (list N),
+  Forall rec_ok bodies ->
+  feed_drain (blocks1024 (concat (map frame bodies))) mbr_new = Ok (map frame bodies).
+Proof.
+  intros bodies Hb. apply (chunking_invariance bodies []).
+  - exact Hb.
+  - split; [constructor | now left].
+  - rewrite blocks1024_concat. unfold stream. now rewrite app_nil_r.
+Qed.
 
-Section RoundTrip.
-  (** The framing theorem of C20 (chunking invariance of MessageBufReader: DESIGN 3/C20,
-      `chunking_invariance`), in the instance needed here: the 1024-byte blocks of a
-      well-formed stream without padding.  It is a premise of this section; Props/C01.v keeps
-      it visible as a hypothesis of the exported theorems. *)
-  Hypothesis framing_1024 : forall bodies : list (list N),
-    Forall nonempty bodies ->
-    feed_drain (blocks1024 (concat (map frame bodies))) mbr_new = Ok (map frame bodies).
+Lemma snap_image_as_stream h recs : snap_image h recs = concat (map frame (h :: recs)).
+Proof. reflexivity. Qed.
 
-  Lemma snap_image_as_stream h recs : snap_image h recs = concat (map frame (h :: recs)).
-  Proof. reflexivity. Qed.
+(** what the writer wrote is what the reader returns *)
+Theorem snap_roundtrip h recs :
+  rec_ok h -> Forall rec_ok recs -> length (frame h) <= 1024 ->
+  snap_read (snap_image h recs) = Ok (frame h, map frame recs).
+Proof.
+  intros Hh Hr Hl. unfold snap_read. rewrite snap_image_as_stream.
+  rewrite framing_1024 by (constructor; assumption).
+  cbn [map]. rewrite hd_blocks1024.
+  assert (E : length (frame h) <= length (firstn 1024 (concat (frame h :: map frame recs)))).
+  { cbn [concat]. rewrite firstn_length, app_length. lia. }
+  apply Nat.leb_le in E. now rewrite E.
+Qed.
 
-  (** what the writer wrote is what the reader returns *)
-  Theorem snap_roundtrip h recs :
-    nonempty h -> Forall nonempty recs -> length (frame h) <= 1024 ->
-    snap_read (snap_image h recs) = Ok (frame h, map frame recs).
-  Proof.
-    intros Hh Hr Hl. unfold snap_read. rewrite snap_image_as_stream.
-    rewrite framing_1024 by (constructor; assumption).
-    cbn [map]. rewrite hd_blocks1024.
-    assert (E : length (frame h) <= length (firstn 1024 (concat (frame h :: map frame recs)))).
-    { cbn [concat]. rewrite firstn_length, app_length. lia. }
-    apply Nat.leb_le in E. now rewrite E.
-  Qed.
-
-  (** the repaired writer: a leftover file of the same name has no effect at all *)
-  Theorem snap_roundtrip_over_leftover old h recs :
-    nonempty h -> Forall nonempty recs -> length (frame h) <= 1024 ->
-    snap_read (write_truncate old (snap_image h recs)) = Ok (frame h, map frame recs).
-  Proof. intros. rewrite write_truncate_ignores_old. now apply snap_roundtrip. Qed.
-End RoundTrip.
+(** the repaired writer: a leftover file of the same name has no effect at all *)
+Theorem snap_roundtrip_over_leftover old h recs :
+  rec_ok h -> Forall rec_ok recs -> length (frame h) <= 1024 ->
+  snap_read (write_truncate old (snap_image h recs)) = Ok (frame h, map frame recs).
+Proof. intros. rewrite write_truncate_ignores_old. now apply snap_roundtrip. Qed.
 
 (** ** Regression: the writer without truncate.  Records a, b, c left behind by an earlier
     attempt, the new attempt (same id, same header) writes a, b: the reader returns a, b, c. *)
@@ -79,8 +79,3 @@ Lemma truncate_drops_stale_tail :
   = Ok (frame w_hdr, [frame w_a; frame w_b]).
 Proof. vm_compute. reflexivity. Qed.
 
-(** the premise [framing_1024] holds on these streams (sanity: it is not vacuous) *)
-Example framing_1024_instance :
-  feed_drain (blocks1024 (concat (map frame [w_hdr; w_a; w_b; w_c]))) mbr_new
-  = Ok (map frame [w_hdr; w_a; w_b; w_c]).
-Proof. vm_compute. reflexivity. Qed.
